@@ -12,6 +12,10 @@ results = json.load(open(res_path)) if os.path.exists(res_path) else {}
 def sh(cmd, cwd=None, timeout=1800):
     p = subprocess.run(cmd, shell=True, cwd=cwd, env=ENV, capture_output=True, text=True, errors='replace', timeout=timeout)
     return p.returncode, p.stdout + p.stderr
+snap = tempfile.mkdtemp(prefix='verif-snap-', dir='/tmp')
+sh(f'rsync -a --exclude .git --exclude replays --exclude evidence --exclude seeded --exclude bin /verif/ {snap}/')
+import atexit
+atexit.register(lambda: shutil.rmtree(snap, ignore_errors=True))
 for mu in M:
     if want and mu['prop'] not in want and mu['name'] not in want:
         continue
@@ -30,7 +34,7 @@ for mu in M:
             results[key] = dict(status='does-not-compile', detail=out[-300:]); print(key, 'NO-COMPILE', out[-200:]); continue
         rc, out = sh('go test -vet=off -count=1 ./...', cwd=wt)
         tests_pass = rc == 0
-        rc, out = sh(f'VERIF_REPO={wt} timeout -s QUIT 1500 ./run.sh {mu["prop"]} quick', cwd='/verif')
+        rc, out = sh(f'VERIF_REPO={wt} timeout -s QUIT 1500 ./run.sh {mu["prop"]} quick', cwd=snap)
         viol = [l for l in out.splitlines() if l.startswith('VIOLATION')]
         keys = sorted({l.split('key=')[1].split(' ')[0] for l in viol if 'key=' in l})
         status = 'caught' if viol else 'missed'
